@@ -122,7 +122,7 @@ def fails_like(d, S, x, kind):
 
 def run_unit(unit, ctx):
     d = unit[0]
-    U = _e1.get_universe(ctx.tier, "pairs-small" if unit[1] == "pairs" else unit[1])
+    U = list(_e1.get_universe(ctx.tier, "pairs-small" if unit[1] == "pairs" else unit[1]))
     xkeys = [json.dumps(x) for x in U]
     ev = nt = nschemas = multi = 0
     viol, samples, outcomes = [], [], {}
@@ -132,9 +132,23 @@ def run_unit(unit, ctx):
         nschemas += 1
         subs = {k: restricted(d, S, k) for k in S} if isinstance(S, dict) else None
         v = _e1.CLS[d](S)
-        for x, xkey in zip(U, xkeys):
+        skey = json.dumps(S)
+        for xi, (x, xkey) in enumerate(zip(U, xkeys)):
             ev += 1
             n, prob = check_case(d, S, x, xkey, subs, v)
+            if json.dumps(x) != xkey:
+                # validation changed the caller's instance; report, then restore it for the cases that follow
+                viol.append({"signature": "C05|instance-modified|%s" % _e1.kwsig(S), "size": len(skey) + len(xkey),
+                             "case": {"draft": d, "schema": json.loads(skey), "instance": json.loads(xkey),
+                                      "purity": True},
+                             "detail": {"instance_after": x}})
+                U[xi] = x = json.loads(xkey)
+            if json.dumps(S) != skey:
+                viol.append({"signature": "C05|schema-modified|%s" % _e1.kwsig(json.loads(skey)), "size": len(skey),
+                             "case": {"draft": d, "schema": json.loads(skey), "instance": json.loads(xkey),
+                                      "purity": True},
+                             "detail": {"schema_after": S}})
+                break
             if n:
                 nt += 1
             if n > 1:
@@ -157,5 +171,12 @@ def run_unit(unit, ctx):
 
 def replay(case, ctx):
     d, S, x = case["draft"], case["schema"], case["instance"]
+    if case.get("purity"):
+        k1, k2 = json.dumps(S), json.dumps(x)
+        try:
+            list(_e1.CLS[d](S).iter_errors(x))
+        except Exception:
+            pass
+        return {"reproduced": json.dumps(S) != k1 or json.dumps(x) != k2, "schema_after": S, "instance_after": x}
     n, prob = check_case(d, S, x)
     return {"reproduced": prob is not None, "errors": n, "problem": prob}
